@@ -1,0 +1,11 @@
+//go:build !verif
+// +build !verif
+
+/*
+Copyright SecureKey Technologies Inc. All Rights Reserved.
+SPDX-License-Identifier: Apache-2.0
+*/
+
+package localkms
+
+func verifYield() {}
